@@ -325,6 +325,13 @@ class Result:
     def __init__(self, pid, tier, seed):
         self.pid, self.tier, self.seed = pid, tier, seed
         self.t0 = time.time()
+        if os.path.isdir(REPLAYS):
+            for f in os.listdir(REPLAYS):
+                if f.startswith(pid + "-"):
+                    try:
+                        os.remove(os.path.join(REPLAYS, f))
+                    except OSError:
+                        pass
         self.violations = []      # (replay_path, suffix)
         self.known = []           # strings
         self.cov = {"evaluations": 0, "distinct_nontrivial": 0, "rule": "", "samples": [], "obligations": 0, "discharged": 0,
